@@ -102,6 +102,9 @@ def project_spec(it):
 
 
 def to_spec(item):
+    if item["kind"] == "tb":
+        from mc.props import c03
+        return c03.tb_spec(item)
     return history_spec(item["cfg"], item["hist"]) if item["kind"] == "hist" else project_spec(item)
 
 
@@ -144,13 +147,15 @@ def run(ctx):
     explore(ctx, histories(ctx.tier), "mc.props.c01:evaluate", st, payload=payload, sample_of=sample)
     nh = st.evaluations
     explore(ctx, projects(ctx.tier), "mc.props.c01:evaluate", st, payload=payload, sample_of=sample)
+    from mc.props import c03
+    explore(ctx, c03.team_blockers(ctx.tier), "mc.props.c01:evaluate", st, payload=payload, sample_of=sample)
     common.vacuity_guard(ctx, st)
     cov = st.coverage(
         "mode B: all operation histories place(f,link)^d, d <= depth, x (resolution, efficiency, direction); mode A: complete product "
         "universe of 2-3 task projects; states = distinct canonical ledgers (task identity erased); transitions = task placements + "
         "bookings executed by the real scheduler (the sum/counter invariant is evaluated after each); non-trivial = some slot of a "
         "resource is shared by >= 2 tasks",
-        histories=nh, projects=st.evaluations - nh, history_depth=3 if ctx.tier == "quick" else 4)
+        histories=nh, projects_and_team_blocker_cases=st.evaluations - nh, history_depth=3 if ctx.tier == "quick" else 4)
     return ctx.finish(cov, ASSUME)
 
 
